@@ -6,17 +6,32 @@ VERIF = os.path.dirname(os.path.dirname(os.path.abspath(__file__)))
 DRIVER = os.path.join(VERIF, "lean", ".lake", "build", "bin", "driver")
 
 
-def run_harness(exe, args, timeout=60):
+def _cpu_limit(seconds):
+    import resource
+
+    def f():
+        resource.setrlimit(resource.RLIMIT_CPU, (seconds, seconds + 5))
+    return f
+
+
+def run_harness(exe, args, timeout=60, wall_factor=15):
+    """A hang of the code under test is a result (rc -99); a slow machine is not. The limit that decides is therefore CPU
+    time (RLIMIT_CPU = `timeout` seconds: a spinning loop burns it, a starved process does not); the wall-clock limit
+    (`timeout * wall_factor`) is only the backstop for a process that blocks without using the CPU (deadlock)."""
     try:
-        r = subprocess.run([exe] + [str(a) for a in args], capture_output=True, text=True, timeout=timeout)
+        r = subprocess.run([exe] + [str(a) for a in args], capture_output=True, text=True,
+                           timeout=min(timeout * wall_factor, max(3600, 2 * timeout)),
+                           preexec_fn=_cpu_limit(timeout))
+        if r.returncode in (-24, -9) and "verif region exhausted" not in (r.stderr or ""):  # SIGXCPU / SIGKILL at the hard limit
+            return -99, r.stdout, "timeout (cpu limit %ds reached)" % timeout
         return r.returncode, r.stdout, r.stderr
     except subprocess.TimeoutExpired as e:
-        return -99, (e.stdout or b"").decode() if isinstance(e.stdout, bytes) else (e.stdout or ""), "timeout"
+        return -99, (e.stdout or b"").decode() if isinstance(e.stdout, bytes) else (e.stdout or ""), "timeout (wall clock, no cpu use: blocked)"
 
 
 def run_driver(text, timeout=60):
     try:
-        r = subprocess.run([DRIVER], input=text, capture_output=True, text=True, timeout=timeout)
+        r = subprocess.run([DRIVER], input=text, capture_output=True, text=True, timeout=timeout * 15, preexec_fn=_cpu_limit(timeout))
     except subprocess.TimeoutExpired:
         return -99, "", "driver timeout"
     return r.returncode, r.stdout, r.stderr
@@ -177,7 +192,7 @@ def run_sweep(ctx, tag, harness, cfgs, args, prefixes, flags=("-fno-access-contr
     total = {}
     for cfg in cfgs:
         exe = ctx.harness(harness, cfg, flags=list(flags))
-        rc, out, err = run_harness(exe, args, timeout=timeout)
+        rc, out, err = run_harness(exe, args, timeout=timeout, wall_factor=3)
         lines = out.splitlines()
         keep = [l for l in lines if l.startswith("header") or any(l.startswith(p) for p in prefixes)]
         oracle = [l for l in lines if l.startswith("oracle-fail")]
